@@ -156,6 +156,9 @@ func TDExhaustive(full bool) []*TDCase {
 			for j := 0; j < len(paths); j += step {
 				add(&TDCase{Name: n, In: map[string]string{"x": p1, "y": paths[j]}, Params: map[string]string{}, Tags: map[string]string{}})
 			}
+			// two joined ports (the keys of the sub-stream map have to be visited in a fixed order)
+			add(&TDCase{Name: n, In: map[string]string{}, Joined: map[string][]string{"j": {p1}, "k": {"c"}, "m": {"b", p1}}, Params: map[string]string{}, Tags: map[string]string{}})
+			add(&TDCase{Name: n, In: map[string]string{}, Joined: map[string][]string{"left": {p1, "a"}, "right": {"b"}}, Params: map[string]string{}, Tags: map[string]string{}})
 			// sub-streams of 0..2 members
 			add(&TDCase{Name: n, In: map[string]string{}, Joined: map[string][]string{"j": {}}, Params: map[string]string{}, Tags: map[string]string{}})
 			add(&TDCase{Name: n, In: map[string]string{}, Joined: map[string][]string{"j": {p1}}, Params: map[string]string{}, Tags: map[string]string{}})
